@@ -344,6 +344,9 @@ func runCase(col *collector, c *Case, seed int64, name string, maxCopies int) {
 	if c.Reload != nil {
 		col.hit("history:reload-before-target:" + c.ReloadKind)
 	}
+	if c.FaultPrefix != "" {
+		col.hit("history:fault-in-prefix:" + c.FaultPrefix)
+	}
 	if len(c.Others) > 0 {
 		col.hit("state:other-pods-hold-addresses")
 	}
